@@ -28,7 +28,9 @@ claim("C01",
 claim("C15",
       "Bounded symbolic round-trip of the real default codec: values built from solver-chosen shapes (depth <= 2 fully, depth-3 spine, width <= 2) with symbolic "
       "int/bool/str/float leaves, envelope look-alikes with every real tag, BatchResult items, non-string keys (must be rejected), extended leaf types at "
-      "symbolic positions; oracle is type-exact equality at every level or a serialization error. All paths exhausted.",
+      "symbolic positions; oracle is type-exact (floats sign-exact) equality at every level or a serialization error. All paths exhausted. History independence: "
+      "two equal-but-distinct scalars from a pool of 11 serialized one after the other in one process (codec run untraced on the solver-chosen concrete pair, "
+      "because CrossHair bypasses functools.lru_cache).",
       "json is an opaque model of CPython's conversion table; serdes `match` statements lowered for tracing; stdlib conversions (base64/uuid/Decimal/isoformat) trusted; "
       "replays use the real json and the unmodified module",
       "CrossHair symbolic execution (z3) of real serdes.serialize/deserialize over solver-built nested values",
@@ -44,7 +46,7 @@ claim("C20",
       "DESIGN.md §3 C20")
 claim("C13",
       "Bounded symbolic execution of the real wait_for_condition executor from an ARBITRARY reachable record (6 situations x any attempt x payload options x 3 "
-      "serializers x strategy decision/delay) with states carrying a symbolic int: first poll gets the initial state, later polls exactly the previous state "
+      "serializers x strategy decision/delay, decision objects built directly) with states carrying a symbolic int: first poll gets the initial state, later polls exactly the previous state "
       "(type-exact, restored by the configured serdes), poll number = attempt+1, stop => synchronous SUCCEED + return, continue => synchronous RETRY with "
       "delay max(d,1) + timed suspension, terminal/PENDING never polled; two polls chained through the backend contract; real create_wait_strategy kernel.",
       "backend contract, FakeState, json model, stub clock (evidence assumptions); custom serializers rendering a state as '' are outside the claim",
@@ -86,8 +88,9 @@ claim("C05",
 claim("C06",
       "Same world as C05 with a failing API call at a solver-chosen position: every sync caller in batch / overflow / main queue is released with the "
       "failure (never with success unless applied, never blocked), failure flag set, no further API call, later callers (sync and async) fail at once; "
-      "one solver-chosen preemption anywhere in producer or consumer (check-then-put window, drain loop, event set before error stored). "
-      "Executor/wrapper-level fail-stop lemmas are added in the executor world (see evidence).",
+      "one solver-chosen preemption anywhere in producer or consumer (check-then-put window, drain loop, event set before error stored; two preemptions in the "
+      "thorough tier); a second caller arriving at any scheduling step of the failure path. Executor world: a branch woken with the failure, and the state refresh of a "
+      "timer-driven resubmission failing on the timer thread, must end execute() with the failure, never hang.",
       "as C05; error classification is C18",
       "CrossHair symbolic execution (z3) of coroutine-lowered real batcher code under a solver-driven scheduler with fault injection",
       "DESIGN.md §3 C06")
@@ -119,7 +122,8 @@ claim("C02",
       "DESIGN.md §2.4, §3 C02")
 claim("C18",
       "Composed symbolic runs of the real wrapper: handler returns JSON / non-serializable / oversized (limit+d for any d) values or raises one of 12 exception "
-      "classes at top level, after a step, or inside a child; the checkpoint API fails at call 1..3 with 4 error shapes (any 4xx!=429 / any 5xx / invalid token / "
+      "classes at top level, after a step, or inside a child; 4 exception classes x 9 constructor-argument shapes (none, int, tuple, bytes, None, lone surrogate, ...) "
+      "x 4 places under the REAL size accounting with outcome and wire error objects type-checked; the checkpoint API fails at call 1..3 with 4 error shapes (any 4xx!=429 / any 5xx / invalid token / "
       "non-boto) under consumer run-ahead 0..6 and immediate-wake races; malformed events; plus CheckpointError.from_exception against its documented rule with "
       "symbolic status/code/message. Oracle: exactly one well-formed outcome, raise only for retriable checkpoint / invocation errors / bad payload, checkpoint "
       "thread stopped and finished before the wrapper leaves. All paths exhausted.",
@@ -171,8 +175,10 @@ claim("C07",
       "record that lets the backend wake the execution (or such a record pre-exists) and a timed suspension carries the recorded delay; (b) executor world: the real "
       "executor with branches that succeed / fail / park / park until t / resume after a park / never finish, solver-chosen completion order and timer activity: "
       "SuspendExecution only when no branch is running or waiting to start, earliest parked timestamp, one synchronous refresh checkpoint per resubmission, no "
-      "deadlock unless a branch itself never finishes, no livelock within 40 actions; (c) composed executions reach SUCCEEDED/FAILED within 6 invocations under "
-      "every crash point (lemmas shared with C02).",
+      "deadlock unless a branch itself never finishes, no livelock within 40 actions; one solver-chosen submit() whose task has finished before add_done_callback "
+      "(callback on the submitting/timer thread, non-reentrant TimerScheduler lock modelled); the resubmission's refresh checkpoint failing on the timer thread; "
+      "(c) composed executions reach SUCCEEDED/FAILED within 6 invocations under every crash point (lemmas shared with C02); (d) a caller racing or arriving during "
+      "the failing consumer's drain is never left blocked (pipeline-world lemmas shared with C06).",
       "liveness is bounded safety (action/invocation bounds); unbounded-time liveness and OS scheduler fairness are outside the claim; pool/timer thread modelled",
       "CrossHair symbolic execution (z3) of the real executors, ConcurrentExecutor/TimerScheduler under a solver-driven pool model, and composed wrapper runs",
       "DESIGN.md §3 C07")
